@@ -3,6 +3,7 @@ collapsing parameters and timeout-driven retries only remove peptides. """
 import os
 from hypothesis import strategies as st
 from vf.harness import Outcome
+from vf.model import Ref
 from vf import cveval, refgen, drive
 from vf.dr import D
 
@@ -80,6 +81,22 @@ def unsound(case, res, out):
         out.label('fallback_enumeration')
     if inconclusive:
         out.inconclusive = 'too_many_records_for_fallback'
+    if bad:
+        # rare circRNA defects (rate-capped open finding), by structural signature
+        ref = Ref(case['ref'])
+        circs = {r['id']: r for r in case['records'] if r['kind'] == 'circ'}
+        rest = []
+        for seq, hdr in bad:
+            sig = None
+            for e in cveval.parse_header(hdr):
+                if e['backbone'] in circs:
+                    sig = sig or cveval.circ_rare_signature(case, ref, circs[e['backbone']], seq)
+            if sig:
+                out.known.append('CV-circ-copy-inconsistency')
+                out.detail = dict(signature=sig, seq=seq, header=hdr)
+            else:
+                rest.append((seq, hdr))
+        bad = rest
     return bad
 
 
@@ -93,6 +110,9 @@ def prop(case, ctx):
     try:
         res0 = cveval.run_tool(case, ctx)
     except Exception as e:     # pylint: disable=broad-except
+        if 'Failed to finish transcript' in str(e):
+            out.inconclusive = 'tool_timeout'      # wall-clock give-up, never a violation
+            return out
         bucket = cveval.crash_bucket(e)
         if any(r['kind'] == 'fusion' for r in case['records']) and 'expand_alignments' in bucket:
             out.known.append('C01-fusion-expand-alignments-crash')
